@@ -117,8 +117,11 @@ void run_symsh(const Desc& d)
         Op op(in, &st);
         Runner<Solver, Base, T> r(d, cx, st, sink);
         r.lanczos = true;
-        r.make = [&]() { return new Solver(op, nev, ncv, sigma); };
+        // the shift is handed over in a variable of the caller that is overwritten right after construction: the solver must have taken a copy
+        T sigvar = sigma;
+        r.make = [&]() { sigvar = sigma; Solver* s = new Solver(op, nev, ncv, sigvar); sigvar = sigma + T(977); return s; };
         r.op_probe = [&]() { return probe_digest(op, n); };
+        r.op_reshift = [&]() { in.set_shift((T) d.f("resig", 0.21L)); in.set_shift(sigma); };
         r.run(&sp);
     }
     else
@@ -133,8 +136,11 @@ void run_symsh(const Desc& d)
         Op op(in, &st);
         Runner<Solver, Base, T> r(d, cx, st, sink);
         r.lanczos = true;
-        r.make = [&]() { return new Solver(op, nev, ncv, sigma); };
+        // the shift is handed over in a variable of the caller that is overwritten right after construction: the solver must have taken a copy
+        T sigvar = sigma;
+        r.make = [&]() { sigvar = sigma; Solver* s = new Solver(op, nev, ncv, sigvar); sigvar = sigma + T(977); return s; };
         r.op_probe = [&]() { return probe_digest(op, n); };
+        r.op_reshift = [&]() { in.set_shift((T) d.f("resig", 0.21L)); in.set_shift(sigma); };
         r.run(&sp);
     }
 }
